@@ -61,6 +61,106 @@ def sink_branch_locals(tree):
     return tree
 
 
+def swaps_via_temp(tree):
+    """`t = X; X = Y; Y = t` (three consecutive statements; `t` a local bound only there and read only there; X, Y attribute / subscript /
+    name targets that do not mention `t`) is the tuple swap `X, Y = Y, X`: the same two values are read, X is stored first, then Y."""
+    for fn in [n for n in ast.walk(tree) if isinstance(n, ast.FunctionDef)]:
+        loads, stores = {}, {}
+        for n in ast.walk(fn):
+            if isinstance(n, ast.Name):
+                d = loads if isinstance(n.ctx, ast.Load) else stores
+                d[n.id] = d.get(n.id, 0) + 1
+
+        def as_load(node):
+            new = copy.deepcopy(node)
+            for x in ast.walk(new):
+                if hasattr(x, 'ctx'):
+                    x.ctx = ast.Load()
+            return new
+
+        def visit(block):
+            i = 0
+            while i < len(block):
+                st = block[i]
+                for sub in ('body', 'orelse', 'finalbody'):
+                    if isinstance(getattr(st, sub, None), list) and not isinstance(st, ast.FunctionDef):
+                        visit(getattr(st, sub))
+                if i + 2 < len(block) and all(isinstance(x, ast.Assign) and len(x.targets) == 1 for x in block[i:i + 3]):
+                    a, b, c = block[i:i + 3]
+                    t = a.targets[0].id if isinstance(a.targets[0], ast.Name) else None
+                    if (t is not None and loads.get(t, 0) == 1 and stores.get(t, 0) == 1 and isinstance(c.value, ast.Name) and c.value.id == t
+                            and not isinstance(b.targets[0], ast.Name) and not isinstance(c.targets[0], ast.Name)
+                            and ast.dump(as_load(b.targets[0])) == ast.dump(a.value) and ast.dump(as_load(c.targets[0])) == ast.dump(b.value)
+                            and not any(isinstance(x, ast.Name) and x.id == t for x in ast.walk(b))):
+                        new = ast.Assign(targets=[ast.Tuple(elts=[b.targets[0], c.targets[0]], ctx=ast.Store())],
+                                         value=ast.Tuple(elts=[b.value, a.value], ctx=ast.Load()), type_comment=None)
+                        ast.copy_location(new, a)
+                        ast.fix_missing_locations(new)
+                        block[i:i + 3] = [new]
+                i += 1
+        visit(fn.body)
+    return tree
+
+
+RESIZERS = {'append', 'pop', 'remove', 'insert', 'extend', 'clear', 'sort', 'reverse'}
+
+
+def inline_len_locals(tree):
+    """`n = len(<param>)` bound once at the top level of a function whose body never rebinds the parameter, never deletes from it, never
+    assigns a slice of it and never calls a resizing method on it (append/pop/remove/insert/extend/clear): every read of `n` is
+    `len(<param>)` -- the length cannot change in between."""
+    for fn in [x for x in ast.walk(tree) if isinstance(x, ast.FunctionDef)]:
+        params = {a.arg for a in fn.args.args}
+        stores = {}
+        for x in ast.walk(fn):
+            if isinstance(x, ast.Name) and isinstance(x.ctx, (ast.Store, ast.Del)):
+                stores[x.id] = stores.get(x.id, 0) + 1
+        for st in list(fn.body):
+            if not (isinstance(st, ast.Assign) and len(st.targets) == 1 and isinstance(st.targets[0], ast.Name)):
+                continue
+            v, n = st.value, st.targets[0].id
+            if not (isinstance(v, ast.Call) and isinstance(v.func, ast.Name) and v.func.id == 'len' and len(v.args) == 1 and not v.keywords
+                    and isinstance(v.args[0], ast.Name) and v.args[0].id in params):
+                continue
+            p = v.args[0].id
+            if stores.get(n, 0) != 1 or stores.get(p, 0) != 0 or n in params:
+                continue
+            bad = False
+            for x in ast.walk(fn):
+                if isinstance(x, ast.Call) and isinstance(x.func, ast.Attribute) and isinstance(x.func.value, ast.Name) \
+                        and x.func.value.id == p and x.func.attr in RESIZERS - {'sort', 'reverse'}:
+                    bad = True
+                if isinstance(x, (ast.Delete,)) and any(isinstance(y, ast.Name) and y.id == p for t in x.targets for y in ast.walk(t)):
+                    bad = True
+                if isinstance(x, ast.Subscript) and isinstance(x.ctx, ast.Store) and isinstance(x.slice, ast.Slice) \
+                        and isinstance(x.value, ast.Name) and x.value.id == p:
+                    bad = True
+                if isinstance(x, ast.AugAssign) and isinstance(x.target, ast.Name) and x.target.id == p:
+                    bad = True
+            if bad:
+                continue
+
+            class Sub(ast.NodeTransformer):
+                def visit_Name(self, node):
+                    if node.id == n and isinstance(node.ctx, ast.Load):
+                        return ast.copy_location(copy.deepcopy(v), node)
+                    return node
+            fn.body.remove(st)
+            for i, b in enumerate(fn.body):
+                fn.body[i] = Sub().visit(b)
+            ast.fix_missing_locations(fn)
+    return tree
+
+
+def normalise(tree):
+    """The behaviour-preserving rewrites shared by the translators that read optimizer code (T2, its state-replay instrumentation, the
+    onlooker translator, t_treepop): each maps a spelling onto the one the translators know; none changes what the code does."""
+    sink_branch_locals(tree)
+    swaps_via_temp(tree)
+    inline_len_locals(tree)
+    return tree
+
+
 def find_class(tree, name):
     for n in tree.body:
         if isinstance(n, ast.ClassDef) and n.name == name:
